@@ -90,10 +90,11 @@ Section Objective.
     Variable init_model : nat -> M.                       (* initModel() *)
     Variable compute_dir : ls_state M -> M * vec.         (* computeSearchDirection(): new model, new direction *)
 
-    (* while(!isFeasible(point + t*d)) t /= 2;  double underflow ends the C++ loop after < 1100 halvings *)
+    (* while(!isFeasible(point + t*d)) t /= 2;  a double <= 1 underflows to exactly 0 after < 1100 halvings,
+       which ends the C++ loop with t = 0 (init has checked that the starting point itself is feasible) *)
     Fixpoint halve_feasible (fuel : nat) (point d : vec) (t : Q) : Q :=
       match fuel with
-      | O => t
+      | O => 0
       | S k => if feasible (vadd point (vscale t d)) then t else halve_feasible k point d (qmul t half)
       end.
 
@@ -161,6 +162,26 @@ Section Objective.
     match n with O => s | S k => sd_run k (sd_step s) end.
 End Objective.
 
+(* ---------------- objectives used by the correspondence check ---------------- *)
+(* f(x) = 1/2 x^T A x - b^T x  (A as list of rows), gradient A x - b *)
+Definition mv (A : list vec) (x : vec) : vec := map (fun r => dot r x) A.
+Definition quad_f (A : list vec) (b x : vec) : Q := qsub (qmul half (dot x (mv A x))) (dot b x).
+Definition quad_grad (A : list vec) (b x : vec) : vec := vsub (mv A x) b.
+
+(* box test l <= x <= u, coordinate-wise; wrong lengths are infeasible *)
+Fixpoint box_feasb (l u x : vec) : bool :=
+  match l, u, x with
+  | a :: l', b :: u', c :: x' => Qle_bool a c && Qle_bool c b && box_feasb l' u' x'
+  | [], [], [] => true
+  | _, _, _ => false
+  end.
+
+(* BoxConstraintHandler::isFeasible: infeasible iff x(i) + 1e-13 < lower(i) or x(i) - 1e-13 > upper(i) for some i,
+   i.e. the box widened by the double 1e-13 (exact rational below) *)
+Definition box_eps : Q := 3961408125713217 # 39614081257132168796771975168.
+Definition box_feasb_slack (eps : Q) (l u x : vec) : bool :=
+  box_feasb (map (fun a => qsub a eps) l) (map (fun b => qadd b eps) u) x.
+
 (* ---------------- save / restore (ISerializable::write / read) ---------------- *)
 Inductive field : Type := FQ (q : Q) | FN (n : nat) | FV (v : vec).
 
@@ -188,6 +209,11 @@ Section SaveRestore.
     | _ => None
     end.
 End SaveRestore.
+
+(* CG::write appends m_count *)
+Definition cg_save_extra (c : nat) : list field := [FN c].
+Definition cg_restore_extra (fs : list field) : option nat :=
+  match fs with [FN c] => Some c | _ => None end.
 
 (* SteepestDescent::write at the pinned commit: m_path, m_learningRate, m_momentum only *)
 Definition sd_save_coded (s : sd_state) : list field := [FV (sd_path s); FQ (sd_lr s); FQ (sd_mom s)].
